@@ -9,6 +9,25 @@ COMMON_NOTE = ("Trusted: Coq 8.16.1 kernel, extraction (ExtrOcamlBasic only), oc
                "correspondence stream ties it to /repo on the generated inputs only. ")
 
 CLAIMED = {
+    "C03": dict(
+        text="Theorems over the model of every public LineBuffer method (same byte arithmetic, explicit Panic): for EVERY "
+             "operation, Unicode data, segmentation, buffer and parameters the notifications replayed on the old text give "
+             "the new text, and motions/copies change nothing and notify nothing; for the character- and line-level "
+             "operations, totality (no panic) and cursor-on-boundary for every buffer/cursor/count given only that the "
+             "segmentation partitions the text (proved for the model segmentation); insert/yank refuse or stay within a "
+             "fixed capacity. PARTIAL: totality/cursor validity of word motions, char search, transpose, edit_word, indent "
+             "and update's boundary cut rest on the oracle over the linebuf stream (no panic, cursor on boundary).",
+        note=COMMON_NOTE + "Preconditions: cursor on a character boundary; raw primitives get in-text boundary ranges.",
+        technique="Coq proof: compositional replay/purity over a state monad whose only mutators are 4 primitives; direct proofs of totality + invariant per operation; extracted-model differential check (small-exhaustive + random)"),
+    "C04": dict(
+        text="Theorems: forward motion/delete by n from a boundary covers exactly the first min(n,remaining) clusters (and "
+             "the single notification names them); motion targets are character boundaries on the right side of the "
+             "cursor; end-of-line brackets the cursor with no line break inside; the count-iteration law is REFUTED by a "
+             "kernel-checked witness (known finding K_word_count). PARTIAL: word starts/ends under the three definitions, "
+             "line ranges, n-th occurrence char search and kill = copy range are decided by the declarative + metamorphic "
+             "oracle on the implementation (with its own segmentation and Unicode tables) and by model correspondence.",
+        note=COMMON_NOTE + "Known finding K_word_count is reported as KNOWN-FINDING; its class is pinned by the model correspondence.",
+        technique="Coq proof over cluster lists + declarative/metamorphic oracle + extracted-model differential check"),
     "C09": dict(
         text="Theorems (closed under the global context) over the model of MemHistory: for every op sequence the entries are "
              "the last k accepted lines (ghost log) within the limit; add refuses exactly the four documented cases; get is "
